@@ -22,7 +22,17 @@ func NewLinearHist(min, max float64, nbins int) *LinearHist {
 }
 
 func (h *LinearHist) bin(x float64) int {
-	return int(math.Floor(h.delta * (x - h.min)))
+	b := math.Floor(h.delta * (x - h.min))
+	// Clamp before converting: the result of converting a float
+	// that doesn't fit in an int is implementation-defined (on
+	// amd64 a sample far above the range became a large negative
+	// bin).
+	if !(b >= 0) {
+		return -1
+	} else if b >= float64(len(h.bins)) {
+		return len(h.bins)
+	}
+	return int(b)
 }
 
 func (h *LinearHist) Add(x float64) {
